@@ -13,6 +13,7 @@ import (
 	"verif/harness/race"
 	"verif/harness/rec"
 	"verif/harness/sched"
+	"verif/harness/world"
 )
 
 // "A request the mint answers with an error changes nothing" under concurrency: 2..3 requests (some sharing inputs,
@@ -20,11 +21,23 @@ import (
 // along must be exactly as usable afterwards as if the request had never been made - unless another request, one that
 // was accepted, used it. The harness is shared with C01 (package race).
 
+// verdictT is used for confirmation re-runs inside the verdict functions.
+var verdictT world.T = panicT{}
+
+type panicT struct{}
+
+func (panicT) Fatalf(format string, a ...any) { panic(fmt.Sprintf(format, a...)) }
+func (panicT) Logf(format string, a ...any)   {}
+
 var schedKinds = []string{"swap", "swap", "swap", "melt", "mint", "check"}
 
 func refusedVerdict(cs race.Case, r *race.Result) (string, string) {
 	if r.SchedErr != nil {
-		return "C06|sched|scheduler_error", r.SchedErr.Error()
+		if race.SchedErrReproduces(verdictT, cs, r.Choices) {
+			return "C06|sched|scheduler_error", r.SchedErr.Error()
+		}
+		rec.Inconclusive()
+		return "", ""
 	}
 	if r.Panic != "" {
 		return "C06|sched|panic|" + strings.SplitN(r.Panic, ":", 2)[0], r.Panic
